@@ -477,7 +477,7 @@ def mutate(m, rng, kind=None):
             tys = [t for t in all_types(m) if t.HasField("tensor_type")]
             if not tys:
                 return None
-            rng.choice(tys).tensor_type.elem_type = rng.choice([9999, -1, 24, 100])
+            rng.choice(tys).tensor_type.elem_type = rng.choice([9999, -1, 24, 100, 0])
         elif kind == "bad_data_type":
             ts = all_tensors(m)
             if not ts:
@@ -1467,20 +1467,21 @@ def vinfo_is_empty(vi) -> bool:
         return False
 
 
-def repair_known_sites(p):
-    """Remove the recorded defect sites from a proto (see known_findings.d/C17.json):
-    * fixpoint-initializer-empty-value-info: a value_info entry without type/shape/doc/metadata naming an
-      initializer that is not a graph input (it erases the type the deserializer derived from the tensor)."""
-    q = copy.deepcopy(p)
-    changed = False
+def _repair_name_collision(q) -> bool:
     # experimental-function-value-info-name-collision: value names of the form "<domain>::<function>/<value>"
+    changed = False
     if q.ir_version < 10 and len(q.functions):
         for get, put in name_slots(q):
             k = get()
             if isinstance(k, str) and "::" in k and "/" in k:
                 put(k.replace("::", "__"))
                 changed = True
+    return changed
+
+
+def _repair_dup_initializer(q) -> bool:
     # reser-duplicate-initializer-bad-dtype: keep only the LAST initializer of every repeated name
+    changed = False
     for g in all_graphs(q):
         names = [t.name for t in g.initializer]
         if len(set(names)) != len(names):
@@ -1489,7 +1490,12 @@ def repair_known_sites(p):
             del g.initializer[:]
             g.initializer.extend(keep)
             changed = True
+    return changed
+
+
+def _repair_dup_attribute(q) -> bool:
     # ghost-consumers-of-dropped-duplicate-attribute: keep only the LAST attribute of a repeated name
+    changed = False
     again = True
     while again:                      # node lists are re-collected after every edit (edits replace sub-messages)
         again = False
@@ -1505,19 +1511,42 @@ def repair_known_sites(p):
                     break
             if again:
                 break
+    return changed
+
+
+def _repair_empty_value_info(q) -> bool:
+    # fixpoint-initializer-empty-value-info: a value_info entry without type/shape/doc/metadata naming an
+    # initializer that is not a graph input (it erased the type the deserializer derived from the tensor)
+    changed = False
     for g in all_graphs(q):
         ins = {i.name for i in g.input}
         inits = {t.name for t in g.initializer} - ins
-        keep = []
+        keep, ch = [], False
         for vi in g.value_info:
             if vi.name in inits and vinfo_is_empty(vi):
-                changed = True
+                ch = True
             else:
                 keep.append(copy.deepcopy(vi))
-        if changed:
+        if ch:
             del g.value_info[:]
             g.value_info.extend(keep)
-    return q if changed else None
+            changed = True
+    return changed
+
+
+REPAIRS = {"experimental-function-value-info-name-collision": _repair_name_collision,
+           "reser-duplicate-initializer-bad-dtype": _repair_dup_initializer,
+           "ghost-consumers-of-dropped-duplicate-attribute": _repair_dup_attribute,
+           "fixpoint-initializer-empty-value-info": _repair_empty_value_info}
+
+
+def repair_known_sites(p, key):
+    """Remove the recorded defect site of ONE finding (known_findings.d/C17.json) from a copy of the proto; None
+    when the proto has no such site.  Only the repair of the finding in question is applied: a failure that goes
+    away by repairing the site of a FIXED finding is a regression of that fix, not the open finding."""
+    q = copy.deepcopy(p)
+    fn = REPAIRS.get(key)
+    return q if fn is not None and fn(q) else None
 
 
 def known_key(ck, msgs: list[str], p=None):
@@ -1530,7 +1559,7 @@ def known_key(ck, msgs: list[str], p=None):
             continue
         if p is None:
             continue
-        q = repair_known_sites(p)
+        q = repair_known_sites(p, k["key"])
         if q is not None and not oracle_fails(q):
             return k["key"]
     return None
